@@ -106,7 +106,8 @@ CheckRuns(mm) ==
                      /\ (~(Has(o, "live") /\ Has(run.obs[o.rep], "live")) \/ o.live = run.obs[o.rep].live)
                   THEN TRUE
              ELSE Report("accumulation", run.cfg, "stack capacity or live cells grew over repeated identical failures",
-                         [cap |-> run.obs[o.rep].cap, live |-> run.obs[o.rep].live], [cap |-> o.cap, live |-> o.live])
+                         [cap |-> run.obs[o.rep].cap, live |-> IF Has(run.obs[o.rep], "live") THEN run.obs[o.rep].live ELSE -1],
+                         [cap |-> o.cap, live |-> IF Has(o, "live") THEN o.live ELSE -1])
           \* tail calls (C04): refinement bound on the control stack
           /\ IF ~(Has(Rec[si], "w") /\ Has(o, "maxsp") /\ mm.status = "done") THEN TRUE
              ELSE IF o.maxsp - o.sp0 <= StackBound(mm) THEN TRUE
